@@ -1,9 +1,12 @@
 package main
 
 import (
+	"encoding/json"
 	"fmt"
 	"go/token"
 	"go/types"
+	"os"
+	"path/filepath"
 	"sort"
 	"strings"
 
@@ -153,7 +156,7 @@ func checkC05(r *Report) {
 	p := loadResolve("", true)
 	e := runEffect(p)
 	effectTrusted(r)
-	r.Explain = "Ownership/effect analysis on go/ssa over everything reachable (VTA call graph) from the three Resolve methods. C05.a OWN: every value obtained from a resolve.Client interface call (and from a resolver-lifetime lru cache) is tracked with direct/deep origin facts through fields, slices, maps, closures, local cells (flow- and field-sensitive) and function summaries; every primitive write site (store, map update, append, copy, sort.*/slices.* mutators) whose region type could be client or cache memory must never see such an origin. C05.b READ-PURE: the resolve.Client methods of each implementing type write nothing reachable from their receiver (one whitelisted field, lock-guarded). C05.c RESOLVER-STATE: no field of a resolver is written after construction and Resolve stores to no package-level variable. C05.d CACHE-PURE: a function that adds to a resolver-lifetime lru cache reads (transitively, closures included) no per-call field of the struct that holds the cache, so a cached value is a function of its key and the client only and cannot carry one resolution's root into the next. C05.f CACHE-KEY: the value added to a resolver-lifetime cache is computed from the key it is stored under: in a backward slice of the value (stopping at the key itself) the only parameters of the filling function that appear, besides the receiver and the context, are the key, so no two inputs with different results share an entry. C05.e CACHE-ON-SUCCESS: a value produced by a call that also returns an error is added to a resolver-lifetime cache only where that error is known to be nil, so a failed computation is not replayed as a success by later resolutions. This decides the structural clause 'resolution never mutates what the client handed out or resolver-lifetime state'; it does not decide equality of graphs."
+	r.Explain = "Ownership/effect analysis on go/ssa over everything reachable (VTA call graph) from the three Resolve methods. C05.a OWN: every value obtained from a resolve.Client interface call (and from a resolver-lifetime lru cache) is tracked with direct/deep origin facts through fields, slices, maps, closures, local cells (flow- and field-sensitive) and function summaries; every primitive write site (store, map update, append, copy, sort.*/slices.* mutators) whose region type could be client or cache memory must never see such an origin. C05.b READ-PURE: the resolve.Client methods of each implementing type write nothing reachable from their receiver (one whitelisted field, lock-guarded). C05.c RESOLVER-STATE: no field of a resolver is written after construction and Resolve stores to no package-level variable. C05.d CACHE-PURE: a function that adds to a resolver-lifetime lru cache reads (transitively, closures included) no per-call field of the struct that holds the cache, so a cached value is a function of its key and the client only and cannot carry one resolution's root into the next. C05.f CACHE-KEY: the value added to a resolver-lifetime cache is computed from the key it is stored under: in a backward slice of the value (stopping at the key itself) the only parameters of the filling function that appear, besides the receiver and the context, are the key, so no two inputs with different results share an entry. C05.g MAP-RANGE: every range over a map reachable from the Resolve methods is on a reviewed table with the reason its (randomised) order cannot reach the canonicalised result; loops reviewed as set-building or edges-only are re-checked on their body. C05.e CACHE-ON-SUCCESS: a value produced by a call that also returns an error is added to a resolver-lifetime cache only where that error is known to be nil, so a failed computation is not replayed as a success by later resolutions. This decides the structural clause 'resolution never mutates what the client handed out or resolver-lifetime state'; it does not decide equality of graphs."
 	r.Assume = []string{"out-of-scope callees (std, grpc, protobuf) do not write memory reachable from their arguments unless modelled", "values returned by resolve.Client implementations alias client state (worst case)"}
 	roots := resolveRoots(p)
 	r.floor("C05.a/OWN", "Resolve methods of resolve.Resolver implementations", len(roots), 3)
@@ -180,6 +183,7 @@ func checkC05(r *Report) {
 	// C05.e
 	cacheOnSuccessRule(r, p)
 	cacheKeyRule(r, p)
+	mapRangeRule(r, p, roots)
 	r.Stats["functions_in_scope"] = len(p.Funcs)
 	r.Stats["functions_reachable_from_Resolve"] = len(reach)
 	r.Stats["summary_passes"] = e.passes
@@ -759,4 +763,154 @@ func uniqStrings(s []string) []string {
 		}
 	}
 	return out
+}
+
+// ---- C05.g MAP-RANGE --------------------------------------------------------
+
+type mapRangeRow struct {
+	Fn    string `json:"fn"`
+	Map   string `json:"map"`
+	Shape string `json:"shape"`
+	Why   string `json:"why"`
+	Count int    `json:"count"`
+}
+
+// mapRangeRule: Go randomises map iteration. Every range over a map that a
+// Resolve call can reach is enumerated and must be on the reviewed table with
+// the reason why its order cannot reach the (canonicalised) result; the
+// shapes "set-building" and "edges-only" are re-checked on the loop body.
+func mapRangeRule(r *Report, p *Prog, roots []*ssa.Function) {
+	rule := "C05.g/MAP-RANGE"
+	var tab struct {
+		Ranges []mapRangeRow `json:"ranges"`
+	}
+	b, err := os.ReadFile(filepath.Join(verifDir(), "tools", "maprange_table.json"))
+	if err != nil || json.Unmarshal(b, &tab) != nil {
+		r.bad(rule, "maprange_table.json", "", "reviewed table missing or unreadable")
+		return
+	}
+	budget := map[string]*mapRangeRow{}
+	left := map[string]int{}
+	for i := range tab.Ranges {
+		row := &tab.Ranges[i]
+		k := row.Fn + "|" + row.Map
+		budget[k] = row
+		c := row.Count
+		if c == 0 {
+			c = 1
+		}
+		left[k] += c
+	}
+	reach := p.reachableFrom(roots)
+	var fs []*ssa.Function
+	for f := range reach {
+		fs = append(fs, f)
+	}
+	sort.Slice(fs, func(i, j int) bool { return fnKey(fs[i]) < fnKey(fs[j]) })
+	n := 0
+	for _, f := range fs {
+		ord := map[string]int{}
+		var loops []*loop
+		for _, blk := range f.Blocks {
+			for _, in := range blk.Instrs {
+				rg, ok := in.(*ssa.Range)
+				if !ok {
+					continue
+				}
+				if _, ok := rg.X.Type().Underlying().(*types.Map); !ok {
+					continue
+				}
+				n++
+				mt := short(rg.X.Type().String())
+				k := fnKey(f) + "|" + mt
+				ord[k]++
+				key := fmt.Sprintf("%s: range over %s #%d", fnKey(f), mt, ord[k])
+				row := budget[k]
+				if row == nil || left[k] == 0 {
+					r.bad(rule, key, p.pos(rg.Pos()), "a map is iterated on a path reachable from Resolve and this loop is not on the reviewed table: Go randomises the order, so unless the body is order-insensitive the graph can differ from run to run; show why it cannot and add the loop to maprange_table.json")
+					continue
+				}
+				left[k]--
+				// the loop whose header consumes this iterator
+				if loops == nil {
+					loops = naturalLoops(f)
+				}
+				var body map[*ssa.BasicBlock]bool
+				if rg.Referrers() != nil {
+					for _, rf := range *rg.Referrers() {
+						if nx, ok := rf.(*ssa.Next); ok {
+							if l := innermostLoop(loops, nx.Block()); l != nil {
+								body = l.body
+							}
+						}
+					}
+				}
+				why := ""
+				switch row.Shape {
+				case "set-building":
+					why = mapLoopOnly(body, func(in ssa.Instruction) string {
+						switch x := in.(type) {
+						case *ssa.Return:
+							return "returns from inside the loop"
+						case *ssa.Store:
+							if _, ok := x.Addr.(*ssa.Alloc); !ok {
+								return "stores outside a local variable"
+							}
+						case ssa.CallInstruction:
+							if bi, ok := x.Common().Value.(*ssa.Builtin); ok {
+								if bi.Name() == "append" {
+									return "appends to a slice (order-sensitive)"
+								}
+								return ""
+							}
+							return "calls " + x.Common().Value.Name()
+						}
+						return ""
+					})
+				case "edges-only":
+					why = mapLoopOnly(body, func(in ssa.Instruction) string {
+						if n := staticCalleeName(in); n == "(*resolve.Graph).AddNode" {
+							return "adds a node (node numbering would follow the iteration order)"
+						}
+						if c, ok := in.(ssa.CallInstruction); ok {
+							if bi, ok := c.Common().Value.(*ssa.Builtin); ok && bi.Name() == "append" {
+								return "appends to a slice (order-sensitive)"
+							}
+						}
+						return ""
+					})
+				}
+				if body == nil && (row.Shape == "set-building" || row.Shape == "edges-only") {
+					why = "the loop consuming this iterator was not found"
+				}
+				if why != "" {
+					r.bad(rule, key, p.pos(rg.Pos()), "reviewed as '"+row.Shape+"' ("+row.Why+"), but the loop body now "+why)
+				} else {
+					how := "reviewed: " + row.Why
+					if row.Shape == "set-building" || row.Shape == "edges-only" {
+						how = row.Shape + " (re-checked on the loop body): " + row.Why
+					}
+					r.ok(rule, key, p.pos(rg.Pos()), how)
+				}
+			}
+		}
+	}
+	r.floor(rule, "ranges over maps reachable from the Resolve methods", n, 12)
+}
+
+// mapLoopOnly returns the first complaint of bad about an instruction of the loop body.
+func mapLoopOnly(body map[*ssa.BasicBlock]bool, bad func(ssa.Instruction) string) string {
+	var blocks []*ssa.BasicBlock
+	for b := range body {
+		blocks = append(blocks, b)
+	}
+	sort.Slice(blocks, func(i, j int) bool { return blocks[i].Index < blocks[j].Index })
+	for _, b := range blocks {
+		for _, in := range b.Instrs {
+			if w := bad(in); w != "" {
+				return w
+			}
+		}
+	}
+	return ""
 }
